@@ -7,7 +7,7 @@ import multiprocessing as mp
 import os
 
 from .model import load_model, AnalysisError
-from .harness import (build, make_point, exc_name, exc_origin, run_paths, partition, valuations,
+from .harness import (build, cref, make_point, exc_name, exc_origin, run_paths, partition, valuations,
                       describe_val, leaf_value)
 from .values import SymNum, ComplexVal, Obj
 from .regions import IV, samples_in
@@ -70,7 +70,7 @@ def depth1_instances(model, tier: str):
         elif k in spec.UNARY:
             out.append(((k, x), k))
         elif k in ("NthPower", "NthRoot"):
-            for n in ns + [2.0]:
+            for n in ns + [2.0, 3.0, 4.0, 7.0]:
                 out.append(((k, x, n), k))
         elif k == "Exponential":
             for b in exp_bases:
@@ -115,18 +115,25 @@ def inspected_child_instances(model, tier: str):
     (isinstance / *_of_given_type anywhere in the class, discovered from the source), with the
     parameter combinations, and n-ary nodes of arity 2 -- the shapes on which a special case keyed
     on the class of a child can act.  Also the same *object* used as both operands."""
-    from .simpengine import mentioned_classes, child_shapes, Namer
+    from .simpengine import mentioned_classes, child_shapes, Namer, deep_pattern_sites, deep_child_shapes
     names = [c.name for c in model.concrete_expression_classes() if c.name in spec.ALL_CLASSES]
     out = []
     ns = (2, 3) if tier == "quick" else (1, 2, 3, 4, 6)
+    deep_owners = {fi.qualname.split(".")[0] for (fi, _ln, _p) in deep_pattern_sites(model)}
     for k in names:
         if k in spec.LEAF:
             continue
         nm = Namer()
-        for ck in mentioned_classes(model, k):
+        ment = mentioned_classes(model, k)
+        for ck in ment:
             if ck in spec.LEAF:
                 continue
-            for ch in child_shapes(ck, nm, "quick", True):
+            shapes = child_shapes(ck, nm, "quick", True)
+            if k in deep_owners:
+                # a method of this class inspects grandchildren: children whose own children are drawn
+                # from the inspected classes
+                shapes = shapes + deep_child_shapes(model, ck, ["Variable"] + ment, nm, "quick")
+            for ch in shapes:
                 if k in spec.UNARY:
                     out.append(((k, ch), f"{k}<{ck}>"))
                 elif k in ("NthPower", "NthRoot"):
@@ -269,6 +276,19 @@ def eval_case(args):
                 except _IR:
                     pass
             return it.call(it.getattr(e, "at"), [p], {})
+        if api == "number-after-reuse":
+            # every node of the expression (the variable object included) first becomes an operand of
+            # other, larger expressions that mention another variable; then the expression is used alone
+            share = {}
+            e = build(it, tree, share)
+            other = build(it, ("Variable", "another_variable"), {})
+            for node in list(share.values()):
+                for kname in spec.BINARY + spec.NARY:
+                    if kname in model.classes:
+                        it.call(cref(model, kname), [node, other], {})
+                        it.call(cref(model, kname), [other, node], {})
+            (name,) = list(val) or ["x"]
+            return it.call(it.getattr(e, "at"), [leaf_value(name, val[name])], {})
         if api == "number":
             (name,) = list(val) or ["x"]
             return it.call(it.getattr(e, "at"), [leaf_value(name, val[name])], {})
